@@ -175,6 +175,43 @@ def check_grammar(ctx: Ctx, g: G.Grammar, start: str, strings: List[str], origin
                     {"grammar": g, "start": start, "string": s, "tree": plain, "failed": bad, "origin": origin},
                 )
     ctx.sample({"grammar": g, "start": start, "strings": len(strings), "exhaustive_up_to": exhaustive_len, "accepted": sum(1 for r in results if r[0] == "trees")}, limit=5)
+    interleaved(ctx, parser, g, start, [(s, r[1]) for s, r in zip(strings, results) if r[0] == "trees" and len(r[1]) >= 2])
+
+
+def interleaved(ctx: Ctx, parser, g, start, multi):
+    """the trees of one input must not depend on other parses of the same parser object being consumed in between"""
+    if len(multi) < 2:
+        return
+    pairs = [(multi[i], multi[(i + 1 + ctx.rng.randrange(len(multi) - 1)) % len(multi)]) for i in range(min(4, len(multi)))]
+    for (a, ta), (b, tb) in pairs:
+        if a == b:
+            continue
+
+        def go():
+            ga = parser.parse(a)
+            first = [next(ga)]
+            gb = parser.parse(b)
+            other = [next(gb)]
+            for t in ga:
+                first.append(t)
+                if len(first) >= len(ta):
+                    break
+            return first
+
+        ctx.evaluations += 1
+        ctx.count("interleaved", "pairs")
+        try:
+            got = guarded(go)
+        except ParseBudget:
+            continue
+        except Exception as e:  # noqa
+            got = ("raises", type(e).__name__)
+        if got != ta:
+            ctx.violation(
+                "interleaved-parses",
+                f"the trees yielded for {a!r} change when a parse of {b!r} on the same parser object is consumed in between",
+                {"grammar": g, "start": start, "string": a, "other": b, "sequential": repr(ta)[:300], "interleaved": repr(got)[:300]},
+            )
 
 
 def solver_parse(ctx: Ctx, g: G.Grammar, strings: List[str]):
@@ -262,9 +299,37 @@ def corpus_cases():
     return res
 
 
+def gen_nullable_chain(rng, terms):
+    """<start> uses nonterminals that are nullable only through nonterminals defined LATER (unit chains ending
+    in an epsilon alternative), several times and at the same input position"""
+    k = rng.randint(1, 3)
+    chain = [f"<n{i}>" for i in range(k + 1)]
+    t = rng.choice(terms)
+    body = []
+    for _ in range(rng.randint(2, 4)):
+        body.append(rng.choice([chain[0], chain[0], rng.choice(chain), "<w>", rng.choice(terms)]))
+    if "<w>" not in body:
+        body.append("<w>")
+    g = {"<start>": ["".join(body)]}
+    for i, nt in enumerate(chain[:-1]):
+        alts = [chain[i + 1]]
+        if rng.random() < 0.4:
+            alts.append(rng.choice(terms) + chain[i + 1])
+        g[nt] = alts
+    g[chain[-1]] = ["", t + chain[-1]] if rng.random() < 0.7 else [t + chain[-1], ""]
+    g["<w>"] = [rng.choice(terms), rng.choice(terms) + "<w>"] if rng.random() < 0.5 else [rng.choice(terms) + rng.choice(terms)]
+    g["<w>"] = list(dict.fromkeys(g["<w>"]))
+    return g
+
+
 def gen_grammar(ctx: Ctx):
     rng = ctx.rng
     for _ in range(200):
+        if rng.random() < 0.2:
+            g = gen_nullable_chain(rng, rng.choice([("a", "b"), ("a", "b", " "), ("0", "1", "-")]))
+            if not G.is_cyclic(g):
+                return g
+            continue
         multi = rng.random() < 0.2
         terms = rng.choice([("a", "b"), ("a", "b", "c"), ("a", "ab", "b"), ("0", "1", "x"), ("a", "b", " ")])
         g = G.gen_grammar(rng, n_nt=(1, 5), terminals=terms, eps_prob=0.2, multi_start=multi, max_syms=3)
@@ -296,7 +361,7 @@ def run(ctx: Ctx):
         strings = [""] + ["".join(p) for n in range(1, Lg + 1) for p in itertools.product(sigma, repeat=n)]
         exhaustive_cases += len(strings)
         strings += [s for s in derived_strings(ctx.rng, g, 12) if s not in set(strings)]
-        ctx.count("grammar", "recursive-start" if any("<start>" in a for a in g["<start>"]) else ("multi-start" if len(g["<start>"]) > 1 else "single-start"))
+        ctx.count("grammar", "nullable-chain" if "<n0>" in g else "recursive-start" if any("<start>" in a for a in g["<start>"]) else ("multi-start" if len(g["<start>"]) > 1 else "single-start"))
         check_grammar(ctx, g, "<start>", strings, "generated", Lg)
         if gi % 3 == 0:
             solver_parse(ctx, g, strings)
